@@ -48,6 +48,7 @@ const (
 	prefixLen  = 105
 	nFat       = 16
 	nSpam      = 110 // > RejectRecCnt: the ring of rejected transactions wraps
+	nChain     = 101 // descendants of T2: more than the 100 a replacement may evict
 	fatScript  = 95000
 	lowLimit   = 500000 // bytes: the lowered size limit
 	expireDays = 1
@@ -182,12 +183,27 @@ func buildUniverse(M [32]byte) *universe {
 	u.add("G", ops(op(c1.id, 0)), outs(o1(2e8-10000-50000)))         // grandchild, high fee (CPFP)
 	t2 := u.add("T2", ops(U(2)), outs(o1(2e8), o1(3e8-20000)))       // fee 20000
 	u.add("D", ops(op(t1.id, 1), op(t2.id, 0)), outs(o1(5e8-25000))) // diamond: T1:1 + T2:0, fee 15000
-	x := u.add("X", ops(U(3)), outs(o1(2e8), o1(3e8-10000)))         // parent of the orphans
-	o := u.add("O", ops(op(x.id, 0)), outs(o1(2e8-10000)))           // orphan when it arrives before X
-	u.add("O2", ops(op(o.id, 0)), outs(o1(2e8-20000)))               // orphan of an orphan
-	u.add("B", ops(U(5)), outs(o1(1e8-10000)))                       // spends the OP_0 output: script fails
-	u.add("L", ops(U(4)), outs(o1(5e8-10)))                          // fee below the minimum
-	u.add("R", ops(U(1), op(t1.id, 1)), outs(o1(8e8-10000-100000)))  // double spend of U1 that also spends T1's own output
+	u.add("T2hi", ops(U(2)), outs(o1(5e8-100000)))                   // double spend of T2 paying more than T2 and 101 descendants together
+	prev, val := op(t2.id, 1), uint64(3e8-20000)
+	for i := 1; i <= nChain; i++ { // K1..K101: a chain of descendants of T2 (more than 100)
+		val -= 10000
+		k := u.add(fmt.Sprint("K", i), ops(prev), outs(o1(val)))
+		prev = op(k.id, 0)
+	}
+	x := u.add("X", ops(U(3)), outs(o1(2e8), o1(3e8-10000)))            // parent of the orphans
+	o := u.add("O", ops(op(x.id, 0)), outs(o1(2e8-10000)))              // orphan when it arrives before X
+	u.add("O2", ops(op(o.id, 0)), outs(o1(2e8-20000)))                  // orphan of an orphan
+	u.add("B", ops(U(5)), outs(o1(1e8-10000)))                          // spends the OP_0 output: script fails
+	u.add("L", ops(U(4)), outs(o1(5e8-10)))                             // fee below the minimum
+	u.add("R", ops(U(1), op(t1.id, 1)), outs(o1(8e8-10000-100000)))     // double spend of U1 that also spends T1's own output
+	u.add("CLo", ops(op(u.by["T1lo"].id, 0)), outs(o1(5e8-5000-10000))) // child of the low-fee double spend
+	u.add("OV", ops(U(4)), outs(o1(5e8+1)))                             // outputs exceed inputs
+	wtx := u.add("W", ops(op(M, uint32(5+nFat))), outs(o1(1e8-30000)))  // segwit spend: size != stripped size
+	wtx.tx.In[0].Witness = [][]byte{{0x51}}
+	wtx.raw = wtx.tx.Serialize(true)
+	for i := 1; i <= nSpam; i++ { // orphans whose parents never show up
+		u.add(fmt.Sprint("S", i), ops(op(sha256.Sum256([]byte(fmt.Sprint("c12-unknown-parent-", i))), 0)), outs(o1(1000)))
+	}
 	big := make([]byte, fatScript)
 	big[0] = 0x6a
 	var f1 *utx
@@ -205,9 +221,10 @@ func buildUniverse(M [32]byte) *universe {
 // ---------------------------------------------------------------- worker protocol
 
 type Job struct {
-	Prefix string   `json:"prefix"`
-	Events []string `json:"events"`
-	Menu   []string `json:"menu"`
+	Prefix     string   `json:"prefix"`
+	Events     []string `json:"events"`
+	Menu       []string `json:"menu"`
+	NotFullRBF bool     `json:"not_full_rbf"` // CFG.TXPool.NotFullRBF
 }
 
 type Step struct {
@@ -382,6 +399,8 @@ func (w *world) enabled() []string {
 		switch {
 		case strings.HasPrefix(e, "mine:") && e != "mine:best":
 			ok = w.connectable(w.tip(), splitNames(e[5:]))
+		case e == "reorg2:":
+			ok = w.tip().Height > 104
 		case strings.HasPrefix(e, "reorg:"):
 			ok = w.tip().Height > 103 && w.connectable(w.tip().Parent, splitNames(e[6:]))
 		}
@@ -447,6 +466,9 @@ func (w *world) submit(via, name string) {
 	default:
 		hfail("unknown path %q", via)
 	}
+	if os.Getenv("C12_HEX") != "" {
+		result += " raw=" + hex.EncodeToString(x.raw)
+	}
 	w.step(via+":"+name, result)
 	if strings.Contains(result, "NO_TXOU") {
 		w.res.Orphans = true
@@ -481,6 +503,12 @@ func (w *world) event(name string) {
 		w.submitQuiet("net", "CF")
 		w.step(name, fmt.Sprint(nFat, " fat transactions + child"))
 		w.oracle(name)
+	case name == "chain": // 101 descendants of T2, parent first
+		for i := 1; i <= nChain; i++ {
+			w.submitQuiet("net", fmt.Sprint("K", i))
+		}
+		w.step(name, fmt.Sprint(nChain, " descendants of T2"))
+		w.oracle(name)
 	case name == "spam": // more parent-less transactions than the ring of rejected records holds
 		for i := 1; i <= nSpam; i++ {
 			w.submitQuiet("net", fmt.Sprint("S", i))
@@ -497,6 +525,17 @@ func (w *world) event(name string) {
 			txs = append(txs, w.u.by[n].tx)
 		}
 		w.deliver(name, w.mkBlock(w.tip(), byte(1+w.pos), txs))
+	case name == "reorg2:":
+		// competing branch forking two blocks below the tip: two BlockUndone callbacks, three BlockMined
+		par := w.tip().Parent.Parent
+		for i := 0; i < 3; i++ {
+			b := w.mkBlock(par, byte(0xc0+3*w.pos+i), nil)
+			w.deliver(fmt.Sprintf("%s/%d", name, i+1), b)
+			par = w.m.Nodes[b.Hash()]
+		}
+		if w.tip() != par {
+			hfail("reference: competing branch did not become best")
+		}
 	case strings.HasPrefix(name, "reorg:"):
 		// competing branch: forks below the tip, two blocks; the second one makes the
 		// node undo the tip block (BlockUndone) and connect the branch (BlockMined x2)
@@ -534,6 +573,15 @@ func (w *world) event(name string) {
 		if len(poolNames(w)) < n {
 			w.res.Evicted = true
 		}
+	case name == "resize": // the operator changes TXPool.RejectRecCnt (100 <-> 150); the next tick resizes the ring
+		nv := uint16(150)
+		if len(txpool.TRIdxArray) == 150 {
+			nv = 100
+		}
+		common.Set(&common.CFG.TXPool.RejectRecCnt, nv)
+		txpool.Tick()
+		w.step(name, fmt.Sprint("ring=", nv))
+		w.oracle(name)
 	case name == "reload": // MempoolSave at shutdown, MempoolLoad at the next start
 		txpool.MempoolSave(false)
 		ok := txpool.MempoolLoad()
@@ -955,7 +1003,7 @@ func (w *world) stateKey() string {
 		rl = append(rl, fmt.Sprintf("%s:%s:%s:%v", w.nm(r.Id.Hash[:]), txpool.ReasonToString(r.Reason), w4, r.Tx != nil))
 	}
 	sort.Strings(rl)
-	fmt.Fprintf(&sb, " rej=%v pend=%d", rl, len(txpool.TransactionsPending))
+	fmt.Fprintf(&sb, " rej=%v pend=%d ring=%d", rl, len(txpool.TransactionsPending), len(txpool.TRIdxArray))
 	fmt.Fprintf(&sb, " sortdirty=%v pkgdirty=%v", txpool.SortListDirty, txpool.FeePackagesDirty)
 	if !txpool.SortListDirty {
 		var o []string
@@ -1040,6 +1088,7 @@ func runJob(job *Job) (res *Result) {
 	common.CFG.TXPool.MaxNoUtxoMB = 5.0
 	common.CFG.TXPool.RejectRecCnt = 100
 	common.CFG.TXPool.SaveOnDisk = true
+	common.CFG.TXPool.NotFullRBF = job.NotFullRBF
 	common.CFG.TXRoute.Enabled = true
 	common.CFG.TXRoute.FeePerByte = 0.1
 	common.CFG.TXRoute.MaxTxWeight = 400e3
@@ -1247,15 +1296,20 @@ var (
 )
 
 type scenario struct {
-	name string
-	menu []string
+	name       string
+	menu       []string
+	notFullRBF bool
+	small      bool // small state space: one level deeper in the thorough tier
 }
 
 var scenarios = []scenario{
-	{"rbf", []string{"net:T1", "net:T1lo", "net:T1eq", "net:T1hi", "loc:T1lo", "net:C1", "net:G", "net:R", "net:CLo", "mine:best", "mine:T1lo", "reorg:", "list"}},
-	{"graph", []string{"net:T1", "net:C1", "net:G", "net:T2", "net:D", "mine:best", "mine:T1", "mine:T1,C1", "mine:T2", "reorg:", "reorg:T1alt", "reload", "list"}},
-	{"orphans", []string{"net:O", "net:O2", "net:X", "loc:O", "tru:X", "net:B", "net:L", "net:OV", "spam", "mine:X", "mine:best", "reorg:", "reload", "tick"}},
-	{"limits", []string{"net:T1", "net:C1", "net:T2", "net:W", "fat", "adv13h", "tick", "limit", "mine:best", "reorg:", "reload", "list"}},
+	{"rbf", []string{"net:T1", "net:T1lo", "net:T1eq", "net:T1hi", "loc:T1lo", "net:C1", "net:G", "net:R", "net:CLo", "mine:best", "mine:T1lo", "reorg:", "list"}, false, false},
+	{"graph", []string{"net:T1", "net:C1", "net:G", "net:T2", "net:D", "net:T1hi", "list", "mine:best", "mine:T1", "mine:T1,C1", "mine:T2", "reload"}, false, false},
+	{"reorgs", []string{"net:T1", "net:C1", "net:T2", "net:D", "mine:best", "mine:T1", "mine:T1,C1", "reorg:", "reorg:T1alt", "reorg:T1", "reorg2:"}, false, true},
+	{"orphans", []string{"net:O", "net:O2", "net:X", "loc:O", "tru:X", "net:B", "net:L", "net:OV", "spam", "resize", "mine:X", "mine:best", "reorg:", "reload", "tick"}, false, true},
+	{"limits", []string{"net:T1", "net:C1", "net:T2", "net:W", "fat", "adv13h", "tick", "limit", "mine:best", "reorg:", "reload", "list"}, false, false},
+	{"rbf100", []string{"net:T2", "chain", "net:T2hi", "tru:T2hi", "list", "mine:best", "reorg:", "reload"}, false, true},
+	{"final-rbf", []string{"net:T1", "net:T1hi", "tru:T1hi", "loc:T1hi", "net:C1", "mine:best", "mine:T1hi", "reorg:", "list"}, true, true},
 }
 
 type hist struct {
@@ -1281,7 +1335,10 @@ type explorer struct {
 	r    *ev.Run
 	sem  chan struct{}
 	mu   sync.Mutex
+	pmu  sync.Mutex
 	pdir string
+
+	rebuilt int
 
 	transitions, oracles, confirmed, states, blocks, blockTxs, undone, maxPool int
 	evicted, expired, replaced, orphans                                        int
@@ -1292,13 +1349,35 @@ type explorer struct {
 	harness                                                                    []string
 }
 
-func (x *explorer) run(menu, evs []string) *Result {
+func (x *explorer) run(sc scenario, evs []string) *Result {
 	x.sem <- struct{}{}
 	defer func() { <-x.sem }()
-	return runWorker(&Job{Prefix: x.pdir, Events: evs, Menu: menu})
+	return x.exec(sc, evs)
 }
 
-func (x *explorer) runLevel(menu []string, tasks []*task) {
+// exec runs one history; an infrastructure failure is retried once, after rebuilding
+// the prefix directory if it disappeared (scratch space is shared with other runs).
+func (x *explorer) exec(sc scenario, evs []string) *Result {
+	for attempt := 0; ; attempt++ {
+		x.pmu.Lock()
+		dir := x.pdir
+		x.pmu.Unlock()
+		res := runWorker(&Job{Prefix: dir, Events: evs, Menu: sc.menu, NotFullRBF: sc.notFullRBF})
+		if res.Harness == "" || attempt >= 1 {
+			return res
+		}
+		x.pmu.Lock()
+		if x.pdir == dir {
+			if _, err := os.Stat(dir + "/prefix.json"); err != nil {
+				x.pdir = buildPrefix()
+				x.rebuilt++
+			}
+		}
+		x.pmu.Unlock()
+	}
+}
+
+func (x *explorer) runLevel(sc scenario, tasks []*task) {
 	var wg sync.WaitGroup
 	for _, t := range tasks {
 		if x.r.OverBudget() {
@@ -1309,7 +1388,7 @@ func (x *explorer) runLevel(menu []string, tasks []*task) {
 		go func(t *task) {
 			defer wg.Done()
 			defer func() { <-x.sem }()
-			t.res = runWorker(&Job{Prefix: x.pdir, Events: t.events(), Menu: menu})
+			t.res = x.exec(sc, t.events())
 		}(t)
 	}
 	wg.Wait()
@@ -1326,7 +1405,7 @@ func (x *explorer) bfs(sc scenario, depth int) {
 	r := x.r
 	seen := map[string]bool{}
 	root := &task{}
-	x.runLevel(sc.menu, []*task{root})
+	x.runLevel(sc, []*task{root})
 	if root.res == nil {
 		return
 	}
@@ -1351,7 +1430,7 @@ func (x *explorer) bfs(sc scenario, depth int) {
 				tasks = append(tasks, &task{h: h, ev: e})
 			}
 		}
-		x.runLevel(sc.menu, tasks)
+		x.runLevel(sc, tasks)
 		var next []hist
 		complete := true
 		for _, t := range tasks {
@@ -1387,7 +1466,7 @@ func (x *explorer) bfs(sc scenario, depth int) {
 			case t.res.Key != "":
 				ok := true
 				for i := 0; i < 2; i++ {
-					if again := x.run(sc.menu, evs); again.Key != t.res.Key {
+					if again := x.run(sc, evs); again.Key != t.res.Key {
 						ok = false
 					}
 				}
@@ -1401,6 +1480,9 @@ func (x *explorer) bfs(sc scenario, depth int) {
 				x.mu.Unlock()
 				// a violating state is not explored further
 			default:
+				if os.Getenv("C12_DUMPSTATES") != "" {
+					fmt.Fprintf(os.Stderr, "STATE %s %v => %s\n", sc.name, evs, t.res.StateKey)
+				}
 				if !seen[t.res.StateKey] {
 					seen[t.res.StateKey] = true
 					next = append(next, hist{evs, t.res.Enabled})
@@ -1445,7 +1527,7 @@ func main() {
 		os.Exit(code)
 	}
 	depth := 4
-	r.Budget = 150 * time.Second
+	r.Budget = 170 * time.Second
 	if r.Thorough() {
 		depth = 6
 		r.Budget = 25 * time.Minute
@@ -1458,14 +1540,18 @@ func main() {
 	}
 	var wg sync.WaitGroup
 	for _, sc := range scenarios {
-		if f := os.Getenv("C12_SCENARIO"); f != "" && f != sc.name {
+		if f := os.Getenv("C12_SCENARIO"); f != "" && !strings.Contains(","+f+",", ","+sc.name+",") {
 			continue
 		}
 		wg.Add(1)
-		go func(sc scenario) {
+		d := depth
+		if sc.small && r.Thorough() && *depthFlag == 0 {
+			d++
+		}
+		go func(sc scenario, d int) {
 			defer wg.Done()
-			x.bfs(sc, depth)
-		}(sc)
+			x.bfs(sc, d)
+		}(sc, d)
 	}
 	wg.Wait()
 	os.RemoveAll(x.pdir)
@@ -1495,12 +1581,13 @@ func main() {
 		"per_scenario":                    x.perScenario,
 		"depth_completed":                 x.depthDone,
 		"violations_confirmed_3x":         x.confirmed,
+		"prefix_dirs_rebuilt":             x.rebuilt,
 		"worker_cpu_s":                    float64(atomic.LoadInt64(&workerCPU)/1e7) / 100,
 		"samples":                         x.samples.L,
-		"rule": "BFS over event histories per scenario (event menus: rbf, graph, orphans, limits), every history in a fresh worker process on a copy of a 105-block chain wired to txpool as client/main.go does; " +
+		"rule": "BFS over event histories per scenario (event menus: rbf, graph, reorgs, orphans, limits, rbf100, final-rbf = NotFullRBF configuration), every history in a fresh worker process on a copy of a 105-block chain wired to txpool as client/main.go does; " +
 			"invariant oracle after every event, listing + block-from-listing acceptance at the end of every history; state key = (confirmed txs, tip block txs, pooled txs with Local/Final/MemInputs/age bucket, rejected records with reason, pending, dirty flags, sort order, fee packages, clock buckets, dynamic minimal fee, size limit)",
 	}, []string{
-		"universe: 4 mature OP_1 outputs + one OP_0 output + 16 funding outputs; T1, T1lo/T1eq/T1hi (double spends, lower/equal/higher fee rate), T1alt (only ever mined), C1, G, T2, D (diamond), X, O, O2 (orphans), B (bad script, network path only), L (fee below floor), R (double spend that also spends its victim's output), F1..F16 (95 kB) + CF (child paying for F1)",
+		"universe: 4 mature OP_1 outputs + one OP_0 output + 16 funding outputs; T1, T1lo/T1eq/T1hi (double spends, lower/equal/higher fee rate), T1alt (only ever mined), C1, G, T2, D (diamond), X, O, O2 (orphans), B (bad script, network path only), L (fee below floor), R (double spend that also spends its victim's output), CLo (child of the rejected low-fee double spend), OV (overspend), W (segwit spend), S1..S110 (parent-less, more than the rejected ring holds), T2hi + K1..K101 (replacement of a transaction with 101 descendants), F1..F16 (95 kB) + CF (child paying for F1)",
 		"script-invalid transactions are submitted only through the network path (SubmitLocalTx/Trusted skip script checks by design); BlockInvalid on trusted blocks and BlockUndone without callbacks are not in the menus",
 		"the wall clock is emulated by moving every time stamp txpool holds back by 13 h (overlay txpool.VerifAdvanceClock); expiry after 1 day; the size limit is lowered to 500 kB through overlay common.VerifSetMaxMempoolSize",
 		"the block assembled from the listing takes the listed transactions in order while they fit into 4M weight, and claims subsidy plus the RECORDED fees",
@@ -1523,16 +1610,16 @@ func replay(x *explorer, file string) int {
 	if err := json.Unmarshal(b, &rec); err != nil {
 		ev.HarnessError("%v", err)
 	}
-	var menu []string
-	for _, sc := range scenarios {
-		if sc.name == rec.Replay.Scenario {
-			menu = sc.menu
+	var sc *scenario
+	for i := range scenarios {
+		if scenarios[i].name == rec.Replay.Scenario {
+			sc = &scenarios[i]
 		}
 	}
-	if menu == nil {
+	if sc == nil {
 		ev.HarnessError("unknown scenario %q", rec.Replay.Scenario)
 	}
-	res := x.run(menu, rec.Replay.Events)
+	res := x.run(*sc, rec.Replay.Events)
 	for _, s := range res.Trace {
 		fmt.Fprintf(ev.Out, "  %s -> %s\n", s.Ev, s.Result)
 	}
